@@ -114,6 +114,7 @@ struct Generator::GeneratorImpl
 
     std::string generateMethodBodyCode(const std::string &methodBody) const;
 
+    std::string generateNumberCode(const std::string &value) const;
     std::string generateDoubleOrConstantVariableNameCode(const VariablePtr &variable) const;
     std::string generateVariableNameCode(const VariablePtr &variable,
                                          bool state = true) const;
